@@ -803,7 +803,22 @@ func (n *vfC10Net) step(s *vfC10Sys, op vfh.Op) error {
 	stage := op.S("stage")
 	l.stages = append(l.stages, stage)
 	n.ledgerIn(l, s, l.blk)
-	if l.auto || l.cut {
+	if l.cut {
+		return nil
+	}
+	if l.auto {
+		// off the model's path: keep the real attempt moving, the outcome is judged by the ledger at the end
+		n.drain(s, 0)
+		if stage == "arrive" && !l.remoteStarted && !l.aborted {
+			if l.dir == "out" {
+				n.drain(s, 300*time.Millisecond) // give the real dial the chance to get as far as its hole punch
+			}
+			for _, r := range s.matching(l.peer, l.ip) {
+				l.cont[r] = true
+			}
+			n.ledgerIn(l, s, l.cont)
+			n.arrive()
+		}
 		return nil
 	}
 	switch stage {
@@ -858,6 +873,37 @@ func (n *vfC10Net) step(s *vfC10Sys, op vfh.Op) error {
 		l.cancel()
 	}
 	return nil
+}
+
+// drain releases whatever has stopped (off-model mode); with a budget it goes on until the transport dial was seen,
+// the local call returned or the budget is used up
+func (n *vfC10Net) drain(s *vfC10Sys, budget time.Duration) {
+	l := n.live
+	deadline := time.After(budget)
+	for {
+		select {
+		case ev := <-n.ctl.events:
+			if ev.stage == "tdial" {
+				l.tdial = true
+				l.tdialBlk = n.ledgerIn(l, s, l.blk)
+				l.tdialCont = n.ledgerIn(l, s, l.cont)
+			}
+			close(ev.release)
+			continue
+		case r := <-l.localRes:
+			l.localDone = &r
+			return
+		default:
+		}
+		if budget == 0 || l.tdial {
+			return
+		}
+		select {
+		case <-deadline:
+			return
+		case <-time.After(time.Millisecond):
+		}
+	}
 }
 
 func (n *vfC10Net) desc() string {
@@ -1094,7 +1140,7 @@ func (n *vfC10Net) finish(s *vfC10Sys, op vfh.Op) (vfC10NetOutcome, error) {
 				c = "L2:net:never-blocked-refused"
 			}
 			s.mismatch(c, fmt.Sprintf("no matching rule blocked, %s: refused by the gater at %q (%s)", desc, out.RefusedAt, out.Local), "admitted", out)
-		} else if l.form != "mapped" {
+		} else if l.form != "mapped" && !l.auto {
 			return out, fmt.Errorf("%s failed for a reason that is not the gater: local %q remote %q", desc, out.Local, out.Remote)
 		}
 	}
